@@ -604,6 +604,105 @@ def runeCountF : Nat → List Nat → Nat
 
 def runeCount (l : List Nat) : Nat := runeCountF l.length l
 
+/-! ## the column writers of the hex dump: internal/asciiwriter, internal/hexpairwriter
+
+    Both format every byte with a caller-supplied function (the byte colour of the options: an
+    ANSI sequence of user-controlled length around the character) into a line buffer that is
+    flushed at every line end and at the end of each Write.  Only LENGTHS matter for the index
+    arithmetic, so a Write call is modelled on the list of formatted lengths of its bytes. -/
+
+structure LineWriter where
+  width : Nat            -- bytes per line (opts.LineBytes, 1..4096 after the clamp)
+  start : Nat            -- startLineOffset
+  offset : Nat
+  bufLen : Nat           -- len(h.buf)
+  bufOffset : Nat
+deriving Repr, BEq, DecidableEq
+
+/-- Go `buf[i] = x` -/
+def goIndex (len i : Nat) : Outcome Unit :=
+  if i ≥ len then .panic "runtime error: index out of range" else .ok ()
+/-- Go `buf[lo:]` / `buf[:hi]` -/
+def goSliceTo (len hi : Nat) : Outcome Unit :=
+  if hi > len then .panic "runtime error: slice bounds out of range" else .ok ()
+
+/-- asciiwriter.New: `buf: make([]byte, width*11+2)` -/
+def asciiNew (width start : Nat) : LineWriter := ⟨width, start, 0, width * 11 + 2, 0⟩
+
+/-- the loop of asciiwriter.Write (asciiwriter.go:53-88) over the formatted lengths of the rest of
+    `p`; `growNeed` / `growTo` are the two expressions of the capacity check so that the seeded
+    variant can be stated; returns the writer and the bytes handed to the underlying writer -/
+def asciiLoop (growNeed : Nat → Nat → Nat) (growTo : Nat → Nat) (h : LineWriter) (written : Nat) :
+    List Nat → Outcome (LineWriter × Nat)
+  | [] => .ok (h, written)
+  | c :: rest =>
+    let lineOffset := h.offset % h.width
+    let need := growNeed h.bufOffset c
+    -- `copy(buf, h.buf[0:h.bufOffset])` when growing
+    (if need > h.bufLen then (goSliceTo h.bufLen h.bufOffset).bind fun _ => .ok (growTo need) else .ok h.bufLen).bind fun bufLen =>
+    (goSliceTo bufLen h.bufOffset).bind fun _ =>          -- copy(h.buf[h.bufOffset:], s)
+    let bo := h.bufOffset + c
+    if !rest.isEmpty && lineOffset == h.width - 1 then
+      (goIndex bufLen bo).bind fun _ =>                   -- h.buf[h.bufOffset] = newline
+      (goSliceTo bufLen (bo + 1)).bind fun _ =>           -- h.buf[:h.bufOffset]
+      asciiLoop growNeed growTo { h with bufLen := bufLen, bufOffset := 0, offset := h.offset + 1 } (written + bo + 1) rest
+    else if rest.isEmpty then
+      (goSliceTo bufLen bo).bind fun _ =>
+      asciiLoop growNeed growTo { h with bufLen := bufLen, bufOffset := 0, offset := h.offset + 1 } (written + bo) rest
+    else
+      asciiLoop growNeed growTo { h with bufLen := bufLen, bufOffset := bo, offset := h.offset + 1 } written rest
+
+/-- one asciiwriter.Write(p) -/
+def asciiWriteWith (growNeed : Nat → Nat → Nat) (growTo : Nat → Nat) (h : LineWriter) (p : List Nat) :
+    Outcome (LineWriter × Nat) :=
+  if h.width == 0 then .panic "runtime error: integer divide by zero" else
+  -- padding up to startLineOffset: one byte each, straight to the underlying writer
+  let pad := h.start - h.offset
+  let h := { h with offset := max h.offset h.start }
+  (if h.offset > h.start && h.offset % h.width == 0 then
+      (goIndex h.bufLen 0).bind fun _ => .ok { h with bufOffset := 1 }
+    else .ok h).bind fun h =>
+  asciiLoop growNeed growTo h pad p
+
+/-- the code as it is: `if need := h.bufOffset + len(s) + 1; need > len(h.buf) { make(need*2) }` -/
+def asciiWrite := asciiWriteWith (fun bo c => bo + c + 1) (fun need => need * 2)
+/-- seeded change S3-C13-1: `need := h.bufOffset + len(s)` … `make(need*2+1)` -/
+def asciiWriteSeeded := asciiWriteWith (fun bo c => bo + c) (fun need => need * 2 + 1)
+
+/-- several Write calls in a row -/
+def writeAll (w : LineWriter → List Nat → Outcome (LineWriter × Nat)) (h : LineWriter) (total : Nat) :
+    List (List Nat) → Outcome (LineWriter × Nat)
+  | [] => .ok (h, total)
+  | p :: ps => (w h p).bind fun (h', n) => writeAll w h' (total + n) ps
+
+/-- hexpairwriter.New: `buf: make([]byte, width*200+1)`, never grown -/
+def hexpairNew (width start : Nat) : LineWriter := ⟨width, start, 0, width * 200 + 1, 0⟩
+
+/-- the loop of hexpairwriter.Write (hexpairwriter.go:78-103) -/
+def hexpairLoop (h : LineWriter) (written : Nat) : List Nat → Outcome (LineWriter × Nat)
+  | [] => .ok (h, written)
+  | c :: rest =>
+    let lineOffset := h.offset % h.width
+    (goSliceTo h.bufLen h.bufOffset).bind fun _ =>        -- copy(h.buf[h.bufOffset:], s) (copy itself truncates)
+    let bo := h.bufOffset + c
+    (goIndex h.bufLen bo).bind fun _ =>                   -- h.buf[h.bufOffset] = ' '
+    let bo := bo + 1
+    if !rest.isEmpty && lineOffset == h.width - 1 then
+      (goSliceTo h.bufLen bo).bind fun _ =>
+      hexpairLoop { h with bufOffset := 0, offset := h.offset + 1 } (written + bo) rest
+    else if rest.isEmpty then
+      (goSliceTo h.bufLen (bo - 1)).bind fun _ =>
+      hexpairLoop { h with bufOffset := 0, offset := h.offset + 1 } (written + bo - 1) rest
+    else
+      hexpairLoop { h with bufOffset := bo, offset := h.offset + 1 } written rest
+
+def hexpairWrite (h : LineWriter) (p : List Nat) : Outcome (LineWriter × Nat) :=
+  if h.width == 0 then .panic "runtime error: integer divide by zero" else
+  let pad := (h.start - h.offset) * 3
+  let h := { h with offset := max h.offset h.start }
+  (if h.offset > h.start then (goIndex h.bufLen 0).bind fun _ => .ok { h with bufOffset := 1 } else .ok h).bind fun h =>
+  hexpairLoop h pad p
+
 /-! ## _stdio_read (interp.go:568-595): `buf := make([]byte, l)` with the caller's length -/
 
 /-- Go `make([]byte, n)`: a negative length or one above maxAlloc (2^48) is a run-time panic
